@@ -38,7 +38,23 @@ fn lookalike(rng: &mut Rng, t: &RType) -> RType {
     match t {
         RType::Opt(x) => RType::opt(lookalike(rng, x)),
         RType::Vec(x) => RType::vec(lookalike(rng, x)),
-        RType::Record(fs) => RType::Record(fs.iter().map(|(i, x)| (*i, lookalike(rng, x))).collect()),
+        RType::Record(fs) => {
+            // same field types under other labels (a tuple / map entry sent as a record with named fields)
+            let hp = crate::model::misc::label_hash;
+            let relabel = rng.below(12);
+            let ids: Vec<u32> = match (relabel, fs.len()) {
+                (0, 2) => vec![hp("key"), hp("value")],
+                (1, 2) => vec![hp("owner"), hp("amount")],
+                (0 | 1, _) => fs.iter().map(|(i, _)| i.wrapping_add(1)).collect(),
+                (2, _) => fs.iter().map(|(i, _)| i.wrapping_add(1000)).collect(),
+                _ => fs.iter().map(|(i, _)| *i).collect(),
+            };
+            let mut seen = std::collections::BTreeSet::new();
+            if !ids.iter().all(|i| seen.insert(*i)) {
+                return RType::Record(fs.iter().map(|(i, x)| (*i, lookalike(rng, x))).collect());
+            }
+            RType::record(ids.into_iter().zip(fs.iter()).map(|(i, (_, x))| (i, if relabel < 3 && rng.chance(2, 3) { x.clone() } else { lookalike(rng, x) })).collect())
+        }
         RType::Variant(fs) => RType::Variant(fs.iter().map(|(i, x)| (*i, lookalike(rng, x))).collect()),
         t => swap(rng, t).unwrap_or_else(|| t.clone()),
     }
@@ -244,6 +260,9 @@ pub fn run(ctx: &mut Ctx) {
             RType::opt(RType::Text),
             RType::Nat,
             RType::vec(RType::Nat),
+            RType::vec(RType::Principal),
+            RType::vec(RType::vec(RType::Nat8)),
+            RType::vec(RType::Text),
         ];
         let wt = rng.pick(&wire_types).clone();
         let env = REnv::new();
@@ -343,6 +362,61 @@ pub fn run(ctx: &mut Ctx) {
             }
         }
         check(ctx, "BoundedVec<_,_,4,String>", RType::vec(RType::Text), r);
+        // more instances, judged by one rule: accepted iff count <= L, every element's data size <= E, their sum <= T
+        // (data size as bounded_vec.rs defines it: bytes of a text / principal, 8 for nat64, 24 + bytes for a Vec<u8> element)
+        macro_rules! bounded {
+            ($name:expr, $ty:ty, $wire:expr, $l:expr, $t:expr, $e:expr, $size:expr, $model:expr) => {{
+                let r = catch(|| Decode!(b, $ty).map(|x| RValue::Vec(x.get().iter().map($model).collect())).map_err(|e| format!("{e:?}")));
+                if wt == $wire {
+                    let sizes: Vec<usize> = match &v {
+                        RValue::Vec(xs) => xs.iter().map($size).collect(),
+                        _ => vec![],
+                    };
+                    let within = sizes.len() <= $l && sizes.iter().all(|s| *s <= $e) && sizes.iter().sum::<usize>() <= $t;
+                    match &r {
+                        Ok(Ok(_)) if !within => ctx.violation(&format!("bounded-vec|accepts-outside-limits|{}", $name), &format!("element sizes {sizes:?} accepted"), input($name)),
+                        Ok(Err(e)) if within => ctx.violation(&format!("bounded-vec|rejects-within-limit|{}", $name), &format!("element sizes {sizes:?} rejected: {}", err_class_str(e)), input($name)),
+                        _ => ctx.count(if within { "agree:bounded-generic-accept" } else { "agree:bounded-generic-reject" }),
+                    }
+                }
+                check(ctx, $name, $wire, r);
+            }};
+        }
+        let text_size = |x: &RValue| match x {
+            RValue::Text(s) => s.len(),
+            _ => 0,
+        };
+        let text_model = |s: &String| RValue::Text(s.clone());
+        const U: usize = UNBOUNDED;
+        bounded!("BoundedVec<_,24,_,String>", BoundedVec<U, 24, U, String>, RType::vec(RType::Text), usize::MAX, 24usize, usize::MAX, text_size, text_model);
+        bounded!("BoundedVec<5,40,12,String>", BoundedVec<5, 40, 12, String>, RType::vec(RType::Text), 5usize, 40usize, 12usize, text_size, text_model);
+        bounded!(
+            "BoundedVec<_,32,_,Principal>",
+            BoundedVec<U, 32, U, candid::Principal>,
+            RType::vec(RType::Principal),
+            usize::MAX,
+            32usize,
+            usize::MAX,
+            |x: &RValue| match x {
+                RValue::Principal(b) => b.len(),
+                _ => 0,
+            },
+            |p: &candid::Principal| RValue::Principal(p.as_slice().to_vec())
+        );
+        bounded!(
+            "BoundedVec<3,90,30,Vec<u8>>",
+            BoundedVec<3, 90, 30, Vec<u8>>,
+            RType::vec(RType::vec(RType::Nat8)),
+            3usize,
+            90usize,
+            30usize,
+            // documented estimate for a vector element: size_of::<Vec<u8>>() + its bytes
+            |x: &RValue| match x {
+                RValue::Vec(b) => std::mem::size_of::<Vec<u8>>() + b.len(),
+                _ => 0,
+            },
+            |p: &Vec<u8>| RValue::blob(p)
+        );
         ctx.count(&format!("cover:borrowed-wire:{}", shape(&env, &wt, 2)));
         ctx.nontrivial(hash_str(&format!("b|{}|{len}", wt)));
     });
